@@ -414,4 +414,14 @@ def streams(ctx):
                 describe="%d variants of enumerated and random scripts: Framed::from_parts(FramedParts::with_read_buf(..)) with the first chunk "
                          "(or the whole stream) already in the read buffer, and into_parts/from_parts, into_map_io, into_map_codec applied "
                          "before every poll ('+x'); the model is unchanged by construction (conversions carry buffers and flags over)" % len(parts))
-    return [s1, s2, s3, s4]
+    # duplex use: the same Framed driven as a Sink between the reads (readiness, sends, flushes, close of the write direction)
+    dup = []
+    for c in base[:1200 if quick else 20000] + rnd[:80 if quick else 1500]:
+        codec, toks = parse_case(c)
+        dup.append("%s+w%d;%s" % (codec, rng.randrange(1000), ",".join(toks)))
+    s5 = Stream("c13duplex", "c13", dup, monitor=monitor, nontrivial=nontrivial, shrink=shrink, compare=compare_exact,
+                finding_key=finding_key, timeout=300 if quick else 1500,
+                describe="%d enumerated and random scripts with Sink calls on the same Framed (poll_ready, start_send of small items, "
+                         "poll_flush, poll_close) placed pseudo-randomly before the reads ('+w<seed>'); the frames read must be those of "
+                         "the read-only model: the write half does not touch what is read" % len(dup))
+    return [s1, s2, s3, s4, s5]
